@@ -1039,6 +1039,145 @@ def scaled_configs(ctx):
                              'subset': subset, 'depth': d_evict, 'group': (K, oi)})
     return cfgs
 
+# ------------------------------------------------------------------------------------------------
+# part P: a second operation at the probe suspension point of add_peer
+
+# kinds the unchanged tree is known to violate inside this family: tallied as observations, never reported
+P_OBSERVE_ONLY = ()
+P_SETUPS = [
+    [('add', 0, 'a'), ('add', 1, 'a'), ('add', 3, 'a')],                     # [c3] [c0 c1]: far bucket full
+    [('add', 0, 'a'), ('add', 1, 'a'), ('add', 3, 'a'), ('add', 7, 'a')],   # near half holds two contacts
+    [('add', 3, 'a'), ('add', 4, 'a'), ('add', 0, 'a'), ('add', 7, 'a')],   # a full middle bucket
+]
+
+
+def probe_window_contacts(own_hex):
+    """the S alphabet plus new node ids at the addresses of the possible newcomers c2 / c5 / c6 (one in the
+    far half, one in the near half each) so that a colliding newcomer can arrive during the probe"""
+    o = int(own_hex, 16)
+    cs = contacts_for(own_hex)
+    for i in (2, 5, 6):
+        cs.append((i2b(o ^ (2 ** 383 + 9 + i)).hex(), cs[i][1], cs[i][2]))
+        cs.append((i2b(o ^ (2 ** 380 + 9 + i)).hex(), cs[i][1], cs[i][2]))
+    return cs
+
+
+def run_probe_window(K, own_hex, contacts, setup, newcomer, second, outcome):
+    """One execution: setup ops one after the other; add_peer(newcomer) with a probe the harness holds open;
+    `second` (a complete operation, None = none) while the probe is pending; the probe answers `outcome`
+    (a / t / e); the first add_peer runs to completion.
+    -> (status, [(sig, what)], log) status in 'judged' / 'no-suspend'"""
+    from lbry.dht.error import RemoteException
+    ex = Exec(K, own_hex, contacts)
+    log = []
+    try:
+        for op in setup:
+            rec = ex.apply(op)
+            if rec.exc is not None:
+                raise RuntimeError(f'part P setup diverged: {op} raised {rec.exc!r}')
+        log.append(f'after setup {fmt_ops(setup)}: {ex.table_canon()}')
+        loop = ex.loop
+        loop._vtime = ex.vtime
+        gate = loop.create_future()
+        probed = []
+
+        async def held_probe(peer):
+            probed.append(peer)
+            await gate
+
+        first = loop.create_task(ex.table.add_peer(ex.peers[newcomer], held_probe))
+        loop.drain()
+        if first.done() or not probed:
+            if not first.done():
+                first.cancel()
+                loop.drain()
+            elif first.exception() is not None:
+                raise RuntimeError(f'part P: un-suspended add raised {first.exception()!r}')
+            return 'no-suspend', [], log
+        log.append(f'add(c{newcomer}) suspended in probe(c{ex.index[probed[0]]})')
+        bad = []
+        if second is not None:
+            rec = ex.apply(second)
+            log.append(f'  during the probe: {fmt_ops([second])} -> {rec.result!r} {ex.table_canon(rec.snap)}')
+            if rec.exc is not None:
+                bad.append(({'kind': 'exception', 'where': 'second', 'type': type(rec.exc).__name__},
+                            f'{fmt_ops([second])} during the probe raised {rec.exc!r}'))
+            if first.done():
+                raise RuntimeError('part P: the suspended add_peer finished before its probe was answered')
+        loop._vtime = ex.vtime
+        if outcome == 'a':
+            gate.set_result(True)
+        elif outcome == 't':
+            gate.set_exception(asyncio.TimeoutError())
+        else:
+            gate.set_exception(RemoteException('remote error'))
+        result = None
+        try:
+            result = loop.run(first, max_steps=100000)
+        except Exception as e:    # noqa - judged
+            loop._ready.clear()
+            bad.append(({'kind': 'exception', 'where': 'first', 'type': type(e).__name__},
+                        f'the suspended add_peer raised {e!r} after its probe was answered'))
+        snap = ex.snapshot()
+        log.append(f'probe answered {outcome}: add(c{newcomer}) -> {result!r} {ex.table_canon(snap)}')
+        bad += structural(snap, ex.own, K)
+        return 'judged', bad, log
+    finally:
+        ex.close()
+
+
+def probe_window_family(res):
+    """every (own id, setup, newcomer that suspends in a probe, second operation, probe outcome) at K = 2"""
+    K = 2
+    for own in OWN_IDS[:2]:
+        contacts = probe_window_contacts(own)
+        n = len(contacts)
+        for si, setup in enumerate(P_SETUPS):
+            members = {o[1] for o in setup}
+            for newcomer in range(n):
+                if newcomer in members:
+                    continue
+                status, _, _ = run_probe_window(K, own, contacts, setup, newcomer, None, 'a')
+                res.count('traces')
+                if status != 'judged':
+                    res.tally('probe_window_newcomer_not_suspended')
+                    continue
+                seconds = [None] + [('add', i, oc) for oc in 'at' for i in range(n)] + \
+                          [('rm', i) for i in sorted(members)]
+                for second in seconds:
+                    for outcome in 'ate':
+                        status, bad, _ = run_probe_window(K, own, contacts, setup, newcomer, second, outcome)
+                        res.count('traces')
+                        res.count('probe_window_executions')
+                        res.count('transitions', len(setup) + 2)
+                        if status != 'judged':
+                            res.error(f'part P: add(c{newcomer}) after setup {si} suspended once but not again')
+                            continue
+                        res.witness('probe_window_second_op')
+                        for sig, what in bad:
+                            if sig['kind'] in P_OBSERVE_ONLY:
+                                res.tally('probe_window_observed_' + sig['kind'])
+                                continue
+                            sig = dict(sig, family='probe-window')
+                            hist = (f'{fmt_ops(setup)} ; add(c{newcomer}) suspended in its probe ; '
+                                    f'{fmt_ops([second]) if second else "-"} ; probe answered '
+                                    f'{ {"a": "alive", "t": "timeout", "e": "error"}[outcome]}')
+                            res.violation(sig, f'[K{K}-own{OWN_IDS.index(own)}-probe-window] {hist}: {what}',
+                                          {'part': 'P', 'K': K, 'own': own, 'contacts': [list(c) for c in contacts],
+                                           'setup': [list(o) for o in setup], 'newcomer': newcomer,
+                                           'second': list(second) if second else None, 'outcome': outcome})
+
+
+def replay_probe_window(data):
+    second = tuple(data['second']) if data.get('second') else None
+    status, bad, log = run_probe_window(int(data['K']), data['own'], [tuple(c) for c in data['contacts']],
+                                        [tuple(o) for o in data['setup']], int(data['newcomer']), second,
+                                        data['outcome'])
+    bad = [(s, w) for s, w in bad if s['kind'] not in P_OBSERVE_ONLY]
+    for sig, what in bad:
+        log.append(f'VIOLATED in the final table: {what}   signature={sig}')
+    return bool(bad), '\n'.join(log)
+
 
 def run(ctx):
     from vf.bootstrap import scratch_dir
@@ -1086,6 +1225,7 @@ def _run(ctx, scratch):
     chunk = 16 if ctx.quick else 40
     state = {}
     gtables = collections.defaultdict(set)     # (K, own id) -> table configurations already given to part Q
+    probe_window_family(res)
     for ci, cfg in enumerate(cfgs):
         ex = Exec(cfg['K'], cfg['own'], cfg_contacts(cfg))
         fd, td = ex.digests()
@@ -1257,6 +1397,8 @@ def _run(ctx, scratch):
 
 
 def replay(data):
+    if data.get('part') == 'P':
+        return replay_probe_window(data)
     cfg = {'name': 'replay', 'K': int(data['K']), 'own': data['own'],
            'contacts': [tuple(c) for c in data['contacts']]}
     hops = [tuple(o) for o in data['ops']]
